@@ -229,13 +229,12 @@ fn one_run(args: &Args, rng: &mut Rng, run: u64) -> (Vec<vcore::trace::Item>, se
                 "res": match &*c.run_result.borrow() { Some(Ok(())) => "ok".to_string(), Some(Err(e)) => e.clone(), None => "none".to_string() }})
         })
         .collect();
-    w.marker(json!({"t": "end", "brokerDone": broker_done, "droppedLeft": dropped_left,
-        "sdb": broker_shutdown_requested, "conns": conn_tasks, "stuck": stuck}));
-
     let panics = w.panics();
     for (_, name, msg) in &panics {
         w.marker(json!({"t": "panic", "task": name, "msg": msg}));
     }
+    w.marker(json!({"t": "end", "brokerDone": broker_done, "droppedLeft": dropped_left,
+        "sdb": broker_shutdown_requested, "conns": conn_tasks, "stuck": stuck}));
 
     let summary = json!({"run": run, "sent": sent, "conns": w.conns.len(), "stuck": stuck, "probed": probed,
         "probeOk": probe_ok, "brokerDone": broker_done, "panics": panics.iter().map(|p| format!("{}: {}", p.1, p.2)).collect::<Vec<_>>()});
